@@ -92,17 +92,20 @@ class Scenario:
         self.stdin = stdin          # bytes | None
         self.tz = tz
         self.dirs = list(dirs)      # extra (possibly empty) directories
+        self.env = {}               # further environment of the process (e.g. RAYON_NUM_THREADS: the size of the pool jwalk uses)
 
     def to_json(self):
         return {"files": [f.to_json() for f in self.files], "argv": self.argv,
                 "stdin_b64": None if self.stdin is None else base64.b64encode(self.stdin).decode(),
-                "tz": self.tz, "dirs": self.dirs}
+                "tz": self.tz, "dirs": self.dirs, "env": dict(self.env)}
 
     @staticmethod
     def from_json(d):
-        return Scenario([FileSpec.from_json(f) for f in d["files"]], d["argv"],
-                        None if d.get("stdin_b64") is None else base64.b64decode(d["stdin_b64"]),
-                        d.get("tz", "UTC"), d.get("dirs", ()))
+        s_ = Scenario([FileSpec.from_json(f) for f in d["files"]], d["argv"],
+                      None if d.get("stdin_b64") is None else base64.b64decode(d["stdin_b64"]),
+                      d.get("tz", "UTC"), d.get("dirs", ()))
+        s_.env = dict(d.get("env") or {})
+        return s_
 
     def digest(self):
         h = hashlib.sha256()
@@ -462,6 +465,7 @@ def _execute_once(scn, plan, keep, wall_cap, binary, want_trace):
             "HOME": wd,
             "LANG": "C.UTF-8",
         }
+        env.update(getattr(scn, "env", None) or {})
         if os.environ.get("S4SIM_LLVM_PROFILE"):      # reach measurement only (tools/coverage.sh)
             env["LLVM_PROFILE_FILE"] = os.environ["S4SIM_LLVM_PROFILE"]
         if getattr(plan, "iofault", None):
